@@ -2,7 +2,7 @@
   Theorems/PrefixSpec.lean — declarator prefixes as an abstract interface (C02).
 
   `PrefixSpec env F D pt pre d1`: wherever the stream reads tokens with the types and texts `pre` and then a
-  name, `_parse_cv_ptr_or_fn` on the base type `pt` returns `d1`, changes nothing else, and leaves a copy of
+  token that ends a prefix (a name, `;`, …), `_parse_cv_ptr_or_fn` on the base type `pt` returns `d1`, changes nothing else, and leaves a copy of
   the name next.  It is quantified over token COPIES (types and texts), because a look-ahead pushes back an
   equal token, not the same one.  Instances: pointer chains (`prefixSpec_ptr`), pointer chains ending in `&`
   or `&&` (`prefixSpec_ref`).  `parseDecl_prefix`, `declarator_variable_pre`, `declarator_field_pre`: the
@@ -19,7 +19,7 @@ def tvs (l : List Tok) : List (String × String) := l.map (fun t => (t.type, t.v
 /-- **a declarator prefix** -/
 def PrefixSpec (env : Env) (F D : Nat) (pt : DType) (pre : List (String × String)) (d1 : DType) : Prop :=
   ∀ (w : World) (ops : List Tok) (bmid bx : Buf) (x : Tok), tvs ops = pre → Yields env.cfg w.buf ops bmid →
-    tokenEofOk env.cfg bmid = .ok (some x, bx) → x.type = "NAME" →
+    tokenEofOk env.cfg bmid = .ok (some x, bx) → endsPtrPrefix x.type = true →
     ∃ (w1 : World) (t1 : Tok), interp env (parseCvPtrOrFnStep F (core F D) pt false) w = (w1, .ok d1) ∧ SameParse w w1 ∧
       tokenEofOk env.cfg w1.buf = .ok (some t1, bx) ∧ t1.type = x.type ∧ t1.value = x.value
 
@@ -33,7 +33,7 @@ theorem prefixSpec_ptr (env : Env) (F D : Nat) (pt d1 : DType) (pre : List (Stri
     (ha : applyPtrOps pt (pre.map (·.1)) = some d1) (hF : pre.length + 1 ≤ F) : PrefixSpec env F D pt pre d1 := by
   intro w ops bmid bx x hops hy htx hx
   obtain ⟨w1, t1, hi1, hb1, htv1, hs1⟩ := cvPtr_chain env (core F D) false ops pt d1 F w bmid bx x hy
-    (by rw [← tvs_types, hops]; exact ha) htx (by rw [hx]; decide) (by rw [← tvs_length, hops]; exact hF)
+    (by rw [← tvs_types, hops]; exact ha) htx hx (by rw [← tvs_length, hops]; exact hF)
   have hty1 : t1.type = x.type := congrArg Prod.fst htv1
   have hv1 : t1.value = x.value := congrArg Prod.snd htv1
   exact ⟨w1, t1, hi1, hs1, by rw [hb1]; exact tokenEofOk_returnToken env.cfg t1 bx (by rw [hty1]; exact tokenEofOk_not_discard htx), hty1, hv1⟩
@@ -55,7 +55,7 @@ theorem prefixSpec_ref (env : Env) (F D : Nat) (pt d1 : DType) (chain : List (St
   have hta := Yields.single_inv hy2
   have hat : a.type = amp.1 := by rw [← hav]
   obtain ⟨w1, t1, hi1, hs1, ht1, hty1, hv1⟩ := cvPtr_chain_ref env (core F D) false cops pt d1 F w bc bmid bx a x hy1
-    (by rw [← tvs_types, hc]; exact ha) hnr hta (by rw [hat]; exact hamp) htx (by rw [hx]; decide) (by rw [← tvs_length, hc]; exact hF)
+    (by rw [← tvs_types, hc]; exact ha) hnr hta (by rw [hat]; exact hamp) htx (by intro h; rw [h] at hx; exact absurd hx (by decide)) (by rw [← tvs_length, hc]; exact hF)
   exact ⟨w1, t1, by rw [hi1, hat], hs1, ht1, hty1, hv1⟩
 
 theorem refOf_notFn (a : String) (d : DType) : isFnType (refOf a d) = false := by
@@ -80,7 +80,7 @@ theorem parseDecl_prefix (env : Env) (F D : Nat) (pt : DType) (mods : Mods) (loc
   simp only [identVal, Bool.and_eq_true, Bool.not_eq_true', bne_iff_ne, ne_eq] at hxv
   obtain ⟨⟨⟨hpv, hnc⟩, hms⟩, hauto⟩ := hxv
   -- the pointer chain
-  obtain ⟨w1, t1, hi1, hs1, ht1, hty1, hv1⟩ := hspec w ops bmid bx x hops hy htx hx
+  obtain ⟨w1, t1, hi1, hs1, ht1, hty1, hv1⟩ := hspec w ops bmid bx x hops hy htx (by rw [hx]; decide)
   have htop1 := interp_getTop env w1 blk rest (by rw [hs1.stack]; exact hstack)
   -- `(`? the calling convention? the name
   obtain ⟨w2, t2, hi2, hs2, ht2, hty2, hv2⟩ := step_tokenIf_miss env ["("] w1 t1 bx ht1 (by rw [hty1, hx]; decide)
